@@ -216,11 +216,16 @@ class Composite(Datum):
         merge_flow = {}
         merge_state = {}
         if composite:
-            merge_processes.update(composite['processes'])
-            merge_topology.update(composite['topology'])
-            merge_steps.update(composite['steps'])
-            merge_flow.update(composite['flow'])
-            merge_state.update(composite.get('state', {}))
+            # copy the nested dictionaries (not the leaves) so that the
+            # merged-in composite is not changed, now or by later merges
+            merge_processes.update(
+                deep_copy_internal(composite['processes']))
+            merge_topology.update(
+                deep_copy_internal(composite['topology']))
+            merge_steps.update(deep_copy_internal(composite['steps']))
+            merge_flow.update(deep_copy_internal(composite['flow']))
+            merge_state.update(
+                deep_copy_internal(composite.get('state', {})))
 
         deep_merge(merge_processes, processes)
         deep_merge(merge_topology, topology)
@@ -234,11 +239,11 @@ class Composite(Datum):
         merge_state = assoc_in({}, path, merge_state)
 
         # merge with instance processes and topology
-        deep_merge(self.processes, merge_processes)
-        deep_merge(self.topology, merge_topology)
-        deep_merge(self.steps, merge_steps)
-        deep_merge(self.flow, merge_flow)
-        deep_merge(self.state, merge_state)
+        deep_merge(self.processes, deep_copy_internal(merge_processes))
+        deep_merge(self.topology, deep_copy_internal(merge_topology))
+        deep_merge(self.steps, deep_copy_internal(merge_steps))
+        deep_merge(self.flow, deep_copy_internal(merge_flow))
+        deep_merge(self.state, deep_copy_internal(merge_state))
         self._schema.update(schema_override)
 
         processes_and_steps = deep_copy_internal(self.processes)
